@@ -97,12 +97,13 @@ func genC09(r *Rng, e *Emitter, n int) {
 		case 1:
 			emit("ls", geom.NewLineStringFlat(l, r.measureRun(s, r.runLen(), scale, false)), "()")
 		case 2:
-			emit("lr", geom.NewLinearRingFlat(l, r.measureRun(s, r.runLen(), scale, true)), "()")
+			emit("lr", geom.NewLinearRingFlat(l, r.measureRun(s, r.runLen(), scale, !r.chance(1, 4))), "()")
 		case 3, 4:
 			var flat []float64
 			var ends []int
+			open := r.chance(1, 4) // rings whose last vertex is not the first: length is still the polyline's
 			for k := r.Intn(4); k > 0; k-- {
-				flat = append(flat, r.measureRun(s, r.runLen(), scale, true)...)
+				flat = append(flat, r.measureRun(s, r.runLen(), scale, !open)...)
 				ends = append(ends, len(flat))
 			}
 			if r.chance(1, 2) {
@@ -120,7 +121,7 @@ func genC09(r *Rng, e *Emitter, n int) {
 			for k := r.Intn(4); k > 0; k-- {
 				ends := []int{}
 				for q := r.Intn(3); q > 0; q-- {
-					flat = append(flat, r.measureRun(s, r.runLen(), scale, true)...)
+					flat = append(flat, r.measureRun(s, r.runLen(), scale, !r.chance(1, 5))...)
 					ends = append(ends, len(flat))
 				}
 				endss = append(endss, ends)
